@@ -67,6 +67,37 @@ META = {
    note="Maps cover the action's parameters only; probes whose effects conflict are excluded.",
    design="6/C18"),
 
+ "C07": dict(
+   technique="history (operation-sequence) generation with per-step invariants in the style of a rule-based state machine; canonical digests of every live object after every call",
+   text="Generated histories of up to 30/60 API calls (parse, ground, applicability, apply with every flag combination, re-apply pooled operators to earlier and later states, print, export, trajectory export, combine agent domains, fresh Domain()) over pools of domains, states and operators; after every call the digest (read-back through public attributes + exported/serialized text) of every pooled domain and state and of the module-level type table is unchanged and repeated queries return the recorded answers.",
+   note="Module-level library state is reset at the top of every case. Probes whose effects conflict are only checked for purity, not for repeatability.",
+   design="6/C07"),
+ "C08": dict(
+   technique="Hypothesis generation + all shipped domain files; round trip through DomainExporter and DomainParser compared via read-back and the reference interpreter; permuted set orders",
+   text="text -> d1 -> export -> d2 -> export -> d3: vocabulary of d2 equals the source, every action of d2 read back is equivalent to the source (canonical structure, else behaviour on calls x states), d3 equals d2, export under permuted iteration orders of operand/effect sets gives an equivalent domain; every shipped domain file round-trips (first parse vs second parse).",
+   note="Known finding K5: rich numeric conditions in nested/when/forall positions are printed through the simplifier (excluded by construction, counted; reproducer committed).",
+   design="6/C08"),
+ "C15": dict(
+   technique="Hypothesis generation of valid sequential multi-agent plans (reference random walks); validity predicates over the returned joint plan evaluated by the reference interpreter",
+   text="PlanConverter.convert_plan on generated STRIPS / numeric multi-agent domains with 2-4 agents: conservation of actions, per-agent order, slot discipline, applicability of every member in the step's pre-state, semantic non-interference of a step's members (all orders executable and confluent), equal final state; both settings of the concurrency constraint, both plan-file layouts.",
+   note="Known finding K10 (preconditions and numeric reads are invisible to the converter's interference test) judged against a model of the criterion the converter does apply.",
+   design="6/C15"),
+ "C16": dict(
+   technique="Hypothesis generation of joint actions; every permutation of the members against the reference interpreter; exporter output re-read independently and through TrajectoryParser",
+   text="apply_actions on every permutation of the non-nop members of generated joint actions (1-4 members, nop padding anywhere) returns the reference state when members are applicable and confluent, refuses an inapplicable member unless allowed; MultiAgentTrajectoryExporter gives one chained step per joint action whose text reads back to the same states and parses back with executing_agents.",
+   note="Interfering-but-applicable joint actions are counted and skipped (unspecified by the property).",
+   design="6/C16"),
+ "C17": dict(
+   technique="Hypothesis generation of full domain/problem + overlapping closed per-agent splits; oracle = the union; discovery order imposed by wrapping Path.glob; digests of unrelated domains before/after",
+   text="MultiAgentDomainsConverter / MultiAgentProblemsConverter on generated splits into 1-4 overlapping agent files: combined vocabulary, action behaviour, objects, facts, fluents and goals equal the union for every discovery order (all permutations up to 24), with and without dummy actions; the exported combination re-parses to the same thing; Domain().types, previously parsed typed/untyped domains and later parses are unchanged.",
+   note="Known finding K2 (goal function term with repeated object) judged against its model.",
+   design="6/C17"),
+ "C19": dict(
+   technique="Hypothesis generation of planner logs from a grammar modelled on the shipped Metric-FF output and of ENHSP plans; oracle = the generated plan",
+   text="get_solving_status / parse_plan on generated Metric-FF logs (0-150 steps, varied headers, trailers, indentation, number width, LF/CRLF, no-solution markers) return exactly the plan's steps lower-cased in order, or no-solution / timeout with no actions; ENHSP plans are returned and rewritten lower-cased in order.",
+   note="Noise lines never contain a digit followed by ': ' (such a line is syntactically a plan step).",
+   design="6/C19"),
+
  "C11": dict(
    technique="bounded-exhaustive enumeration + Hypothesis generation against an independent reference reader (differential), atheris campaign in thorough",
    text="Differential test of PDDLTokenizer against a 40-line character-level reference reader: every token tree up to a node bound under every single-separator substitution and every single parenthesis deletion/insertion (exhaustive), plus generated larger trees/layouts/cases; both string and file input.",
